@@ -188,6 +188,10 @@ pub struct Stall {
     pub at_step: u64,
     pub name_contains: String,
     pub for_steps: u64,
+    /// > 0: a stall in *virtual time* instead: at its next scheduling point the task sleeps for
+    /// this long (a descheduled thread, a slow callback) while everybody else carries on and
+    /// the clock moves - also in the middle of an operation, also while it holds a lock
+    pub for_ns: u64,
 }
 
 #[derive(Clone, Debug)]
@@ -278,6 +282,8 @@ struct Task {
     parker: Arc<Parker>,
     prio: i64,
     stalled_until: u64,
+    vstall_ns: u64,
+    vstall_skip: u32,
     last_site: u64,
     runs: u64,
 }
@@ -307,6 +313,7 @@ pub struct Counters {
     pub blocks: u64,
     pub select_choices: u64,
     pub stalls_after_recv: u64,
+    pub vstalls: u64,
 }
 
 struct State {
@@ -478,6 +485,8 @@ fn new_task(sim: &Arc<Sim>, name: String, kind: Kind) -> TaskId {
         parker: Arc::new(Parker::new()),
         prio,
         stalled_until: 0,
+        vstall_ns: 0,
+        vstall_skip: 0,
         last_site: 0,
         runs: 0,
     });
@@ -700,6 +709,23 @@ pub fn sched_point_at(site: u64) {
     if let Some(e) = check_bounds(&st) {
         end_run(&sim, st, e);
     }
+    // a planned stall in virtual time that has become due for this task
+    if st.tasks[me].vstall_ns > 0 && st.tasks[me].vstall_skip > 0 {
+        st.tasks[me].vstall_skip -= 1;
+    } else if st.tasks[me].vstall_ns > 0 {
+        let ns = std::mem::take(&mut st.tasks[me].vstall_ns);
+        st.ctr.vstalls += 1;
+        let until = st.now + ns;
+        st.tasks[me].state = TState::Sleeping(until);
+        match pick_next(&sim, &mut st, me, site) {
+            Some(next) => switch_to(&sim, st, me, next, site),
+            None => {
+                drop(st);
+                park_forever();
+            }
+        }
+        return;
+    }
     // eager clock fault: let time run ahead of runnable tasks
     if st.cfg.eager_clock_permille > 0 {
         let p = st.cfg.eager_clock_permille;
@@ -824,7 +850,11 @@ fn pick_next(sim: &Arc<Sim>, st: &mut MutexGuard<'_, State>, me: TaskId, _site: 
                 st.cfg.stalls[i].at_step = u64::MAX;
                 for t in st.tasks.iter_mut() {
                     if t.name.contains(&s.name_contains) {
-                        t.stalled_until = step + s.for_steps;
+                        if s.for_ns > 0 {
+                            t.vstall_ns = s.for_ns;
+                        } else {
+                            t.stalled_until = step + s.for_steps;
+                        }
                     }
                 }
             }
@@ -857,8 +887,11 @@ fn pick_next(sim: &Arc<Sim>, st: &mut MutexGuard<'_, State>, me: TaskId, _site: 
             return Some(choose_among(st, me, &cands));
         }
         // nothing runnable: a quiescing task goes first (before time moves)
-        if let Some(q) = (0..n).find(|&i| matches!(st.tasks[i].state, TState::Quiesce)) {
-            return Some(q);
+        let worker_asleep = st.tasks.iter().any(|t| t.kind == Kind::Worker && matches!(t.state, TState::Sleeping(_)));
+        if !worker_asleep {
+            if let Some(q) = (0..n).find(|&i| matches!(st.tasks[i].state, TState::Quiesce)) {
+                return Some(q);
+            }
         }
         // advance time
         match next_deadline(st) {
@@ -871,10 +904,7 @@ fn pick_next(sim: &Arc<Sim>, st: &mut MutexGuard<'_, State>, me: TaskId, _site: 
                     matches!(t.kind, Kind::Client | Kind::Controller)
                         && matches!(t.state, TState::Blocked { .. })
                 });
-                let someone_sleeping = st.tasks.iter().any(|t| {
-                    matches!(t.kind, Kind::Client | Kind::Controller | Kind::Chaos)
-                        && matches!(t.state, TState::Sleeping(_))
-                });
+                let someone_sleeping = st.tasks.iter().any(|t| matches!(t.state, TState::Sleeping(_)));
                 if someone_blocked
                     && !someone_sleeping
                     && st.now.saturating_sub(st.last_client_run_at) > st.cfg.stuck_ns
@@ -1049,6 +1079,16 @@ pub fn sleep_ns(ns: u64) {
     }
 }
 
+/// The calling task will sleep `ns` of virtual time at its (`skip`+1)-th scheduling point from
+/// now: a fault placed at a chosen point *inside* its next operation (between a clock read and
+/// the write that uses it, between two lock acquisitions, ...).
+pub fn stall_self_later(ns: u64, skip: u32) {
+    let Some((sim, me)) = ctx() else { return };
+    let mut st = sim.lock();
+    st.tasks[me].vstall_ns = ns;
+    st.tasks[me].vstall_skip = skip;
+}
+
 /// Jump the clock forward by `ns` at once (fault: no timer fires "on time" in between).
 pub fn jump_clock_ns(ns: u64) {
     let Some((sim, _me)) = ctx() else { return };
@@ -1109,6 +1149,8 @@ pub fn faults_off() {
     st.cfg.stalls.clear();
     for t in st.tasks.iter_mut() {
         t.stalled_until = 0;
+        t.vstall_ns = 0;
+        t.vstall_skip = 0;
     }
 }
 
